@@ -240,13 +240,13 @@ def _symbolic_scope():
 
 def clone(obj, sm, E):
     """a freshly built structural copy: the printed constructor call evaluated with the public names in scope"""
+    text = repr(obj)                    # (first: printing registers the opaque tokens of symbolic numbers)
     scope = {k: getattr(E, k) for k in E.__all__}
     scope.update({k: getattr(sm, k) for k in sm.__all__})
     scope.update(_symbolic_scope())
-    text = repr(obj)
     if text.count("(") > 60:
         return parse_constructor_text(text, scope)       # Python's own parser gives up beyond ~200 nested parentheses
-    return eval(repr(obj), {"__builtins__": {}}, scope)
+    return eval(text, {"__builtins__": {}}, scope)
 
 
 class Shown:
@@ -285,6 +285,10 @@ def run_op(op, objs, pts, sm, E):
         return rt.outcome(lambda: _show(sm.Differential(objs[op[1]], compute_early=True).component("y").as_expression()))
     if k == "norm":
         return rt.outcome(lambda: _show(objs[op[1]]._normalize()))
+    if k == "hash":
+        return rt.outcome(lambda: hash(objs[op[1]]) and 0)
+    if k == "repr":
+        return rt.outcome(lambda: (repr(objs[op[1]]), str(objs[op[1]])) and 0)
     if k == "embed":
         t = objs[op[1]]
         return rt.outcome(lambda: [E.Minus(t, E.Variable("zz")), E.Divide(E.Variable("zz"), t), E.Power(t, E.Variable("zz")),
@@ -342,6 +346,7 @@ def _points(spec, env, sm):
         pts[pn] = sm.Point(x=env[pn + "_x"], y=env[pn + "_y"])
     pts["m"] = sm.Point(x=env["q_x"])                      # lacks y: CoordinateMissing part-way
     pts["p2"] = sm.Point(y=env["p_y"], x=env["p_x"])       # equal to p, a different object, coordinates written in another order
+    pts["sw"] = sm.Point(y=env["q_x"], x=env["q_y"])       # q with the VALUES of x and y exchanged, written y first (so it reads like q positionally)
     return pts
 
 
@@ -364,7 +369,8 @@ def exec_history(spec, env):
     if a["kind"] == b["kind"] == "value" and isinstance(a["value"], Shown) and isinstance(b["value"], Shown):
         # expressions: equal by the library's own structural ==
         x, y = a["value"].x, b["value"].x
-        outs.append(rt.outcome(lambda: bool(x == y) and bool(y == x)))
+        # equal by ==, and - being equal - with equal hashes and the same printed form
+        outs.append(rt.outcome(lambda: bool(x == y) and bool(y == x) and hash(x) == hash(y) and repr(x) == repr(y)))
     else:
         outs.append({"kind": "value", "value": None})
     return outs
@@ -486,6 +492,8 @@ def exec_param(spec, env):
         elif what == "Constant":
             box["o"] = E.Constant(k)
         return type(box["o"]).__name__
+    for _ in range(spec.get("attempts", 1) - 1):
+        rt.outcome(make)                 # earlier attempts with the very same argument: the verdict must not depend on them
     o = rt.outcome(make)
     outs = [o]
     if o["kind"] == "value":
@@ -511,10 +519,17 @@ def foreign(name, sm, E):
     return eval(name, {"object": object})
 
 
-def operand_exprs(E, env):
+def operand_exprs(E, env, need=()):
     x, y = E.Variable("x"), E.Variable("y")
     c = E.Constant(env["c"]) if "c" in env else E.Constant(2)
-    return {"x": x, "y": y, "c": c, "zero": E.Constant(0), "one": E.Constant(1), "two": E.Constant(2), "three_f": E.Constant(3.0),
+    sm = rt.ns()[0]
+    # USED operands: they were operands of expressions that were differentiated / simplified (several times), hashed and printed before
+    used = {"used_neg": E.Negation(x), "used_neg2": E.Negation(E.Sine(y)), "used_sum": E.Add(x, y), "used_pw": E.NthPower(x, 2),
+            "used_rec": E.Reciprocal(E.Negation(x)), "used_prod": E.Multiply(E.Constant(-1), x)}
+    for name, o in used.items():
+        if name in need:
+            age_object(o, ["parent_early", "parent_norm", "deriv_early", "norm", "hash", "repr", "at", "parent_early"], sm, E)
+    return {**used, "x": x, "y": y, "c": c, "zero": E.Constant(0), "one": E.Constant(1), "two": E.Constant(2), "three_f": E.Constant(3.0),
             "neg": E.Negation(x), "sum": E.Add(x, y), "sum0": E.Add(), "prod": E.Multiply(x, y, c), "rec": E.Reciprocal(y),
             "pw": E.NthPower(x, 2), "rt": E.NthRoot(y, 3), "ex": E.Exponential(x, 2), "lg": E.Logarithm(y), "sin": E.Sine(x),
             "min": E.Minus(x, y), "div": E.Divide(x, c), "pwr": E.Power(x, y)}
@@ -524,7 +539,7 @@ def operand_exprs(E, env):
 def exec_operators(spec, env):
     """C15: operator syntax against the constructor-built twin (== both ways, same printed form, same class)"""
     sm, E = rt.ns()
-    ops = operand_exprs(E, env)
+    ops = operand_exprs(E, env, (spec["a"], spec["b"]))
     a, b = ops[spec["a"]], ops[spec["b"]]
     op = spec["op"]
     built = {"neg": lambda: (-a, E.Negation(a)), "add": lambda: (a + b, E.Add(a, b)), "sub": lambda: (a - b, E.Minus(a, b)),
@@ -562,6 +577,8 @@ def exec_reject(spec, env):
         "Power0": lambda: E.Power(f, y), "Power1": lambda: E.Power(x, f), "Add0": lambda: E.Add(f), "Add1": lambda: E.Add(x, f), "Add2": lambda: E.Add(x, y, f),
         "Multiply0": lambda: E.Multiply(f, x), "Multiply1": lambda: E.Multiply(x, f, y), "Multiply2": lambda: E.Multiply(x, y, f),
     }
+    for _ in range(spec.get("attempts", 1) - 1):
+        rt.outcome(sites[site])
     return [rt.outcome(sites[site])]
 
 
@@ -592,6 +609,9 @@ def exec_names(spec, env):
     """C14/C16: Variable(name) for an arbitrary string; every accepted name must work as a coordinate name on every entry point"""
     sm, E = rt.ns()
     name = env["name"]
+    for _ in range(spec.get("attempts", 1) - 1):
+        rt.outcome(lambda: E.Variable(name))            # earlier attempts with the very same name: the verdict must not depend on them
+        rt.outcome(lambda: sm.Point(**{name: 1}))
     outs = [rt.outcome(lambda: bool(E.Variable(name).name == name))]
     if outs[0]["kind"] == "value":
         other = "other_"
@@ -649,7 +669,94 @@ def build_obj(o, env):
         return sm.LocatedDifferential(rt.build(o[1], env, {}), sm.Point(**{n: rt.resolve(v, env) for n, v in o[2]}))
     if k == "foreign":
         return foreign(o[1], sm, E)
+    if k == "diffcomp":
+        v = E.Variable(o[2][4:]) if o[2].startswith("obj:") else o[2]
+        return sm.Differential(rt.build(o[1], env, {}), compute_early=bool(o[3])).component(v)
+    if k == "diffat":
+        return sm.Differential(rt.build(o[1], env, {}), compute_early=bool(o[3])).at(sm.Point(**{n: rt.resolve(v, env) for n, v in o[2]}))
+    if k == "aged":
+        base = build_obj(o[1], env)
+        age_object(base, o[2], sm, E)
+        return derive_object(base, o[3] if len(o) > 3 else "self", sm, E)
     raise KeyError(k)
+
+
+def first_child(e, sm):
+    """the first operand of an expression node, found without assuming attribute names"""
+    for v in vars(e).values():
+        if isinstance(v, sm.Expression):
+            return v
+        if isinstance(v, (list, tuple)) and v and isinstance(v[0], sm.Expression):
+            return v[0]
+    return None
+
+
+def age_object(o, ops, sm, E):
+    """uses an object the way a caller would (results thrown away, exceptions swallowed): afterwards it must still be the same value object.
+    ops: hash repr at at_missing fwd rev early diff_early deriv_early norm asexp parent_norm parent_early"""
+    p = sm.Point(x=2, y=3, z=5)
+    is_expr = isinstance(o, sm.Expression)
+    for op in ops:
+        if op == "hash":
+            rt.outcome(lambda: _h(o))
+        elif op == "repr":
+            rt.outcome(lambda: (repr(o), str(o)))
+        elif op == "at":
+            rt.outcome(lambda: o.at(p))
+        elif op == "at_missing":
+            rt.outcome(lambda: o.at(sm.Point(t=1)))
+        elif op == "asexp":
+            if isinstance(o, sm.Differential):
+                rt.outcome(lambda: [o.component(v).as_expression() for v in ("x", "y")])
+            elif is_expr:
+                rt.outcome(lambda: sm.Partial(o, "x").as_expression())
+            else:
+                rt.outcome(lambda: o.as_expression())
+        elif not is_expr:
+            continue
+        elif op == "fwd":
+            rt.outcome(lambda: sm.Partial(o, "x").at(p))
+        elif op == "rev":
+            rt.outcome(lambda: sm.LocatedDifferential(o, p))
+        elif op == "early":
+            rt.outcome(lambda: sm.Partial(o, "x", compute_early=True))
+        elif op == "diff_early":
+            rt.outcome(lambda: sm.Differential(o, compute_early=True))
+        elif op == "deriv_early":
+            rt.outcome(lambda: sm.Derivative(o, compute_early=True))
+        elif op == "norm":
+            rt.outcome(lambda: o._normalize())
+        elif op == "parent_norm":
+            # o is used as an operand of other expressions, which are then simplified (several times: flags may be set in place, late)
+            for wrap in (lambda: E.Sine(o), lambda: E.Multiply(o, E.Variable("w")), lambda: E.Exponential(o)):
+                def run():
+                    w = wrap()
+                    for _ in range(3):
+                        w._normalize()
+                rt.outcome(run)
+        elif op == "parent_early":
+            for wrap in (lambda: E.Exponential(o), lambda: E.Add(E.Cosine(o), E.Variable("w"))):
+                def run():
+                    w = wrap()
+                    sm.Partial(w, "x", compute_early=True)
+                    sm.Differential(w, compute_early=True)
+                    sm.Partial(w, "y", compute_early=True)
+                rt.outcome(run)
+    return o
+
+
+def derive_object(o, how, sm, E):
+    if how == "self":
+        return o
+    if how == "norm":
+        return o._normalize()
+    if how == "asexp":
+        return sm.Partial(o, "x").as_expression()
+    if how == "inner":
+        return first_child(o, sm)
+    if how == "inner_of_norm":
+        return first_child(o._normalize(), sm)
+    raise KeyError(how)
 
 
 def _h(x):
@@ -743,6 +850,12 @@ def exec_order(spec, env):
             e = rt.build(spec["d"], env, {})
             p = sm.Point(**{n: env[n] for n in order})
             op = _order_ops(sm, E, vs)[spec["op"]]
+            if spec.get("pre_at"):
+                # the SAME expression object was used before, at another point q (written in canonical order in both runs)
+                q = sm.Point(**{n: env["q_" + n] for n in sup})
+                rt.outcome(lambda: e.at(q))
+                if spec["pre_at"] == "all":
+                    rt.outcome(lambda: op(e, q))
             outs.append(rt.outcome(lambda: op(e, p)))
         finally:
             ORDER_HOOK[0]("canonical")
@@ -859,6 +972,13 @@ def exec_ldroutes(spec, env):
         a = sm.LocatedDifferential(z, mk())
         b = sm.Differential(z, compute_early=True).at(mk())
         c = sm.Differential(z).at(mk())
+        if spec.get("roundtrip"):
+            # C13: whichever way the object was obtained, its printed text evaluates to an equal object
+            for o in (a, b, c):
+                t = clone(o, sm, E)
+                if not (bool(t == o) and bool(o == t) and repr(t) == repr(o)):
+                    return False
+            return True
         return bool(a == b) and bool(b == a) and bool(a == c) and bool(c == b) and bool(_h(a) == _h(b)) and bool(_h(b) == _h(c))
     return [rt.outcome(run)]
 
